@@ -465,8 +465,22 @@ func c17Logout(r *core.Run, idx int, rng *rand.Rand) {
 	l := conformantLogout(rng, d)
 	relay := hostileRelay(rng)
 	s := ssoSend{Path: env.PathSLO, Binding: []string{"redirect", "post"}[rng.Intn(2)], XML: l.XML(rng), HasRelay: true, Relay: relay}
+	fault := ""
+	if idx%4 == 3 {
+		// whatever the storage is asked beyond the service-provider lookup while a logout is served fails
+		fault = []string{sim.FaultError, sim.FaultTimeout, sim.FaultPoolClosed}[rng.Intn(3)]
+		e.W.Plan = func(_, op string, _ int) string {
+			if op != "GetEntityByID" && op != "GetResponseSigningKey" {
+				return fault
+			}
+			return ""
+		}
+	}
 	call, _ := s.do(e)
 	class := "logout|" + s.Binding
+	if fault != "" {
+		class += "|other_storage_calls_fail"
+	}
 	desc := map[string]any{"relay_state": clipS(relay, 400), "relay_len": len(relay), "slo": slo}
 	r.Eval(fmt.Sprintf("%s|%s|%d", class, core.Hex(slo), len(relay)))
 	if call.Panic != "" {
